@@ -60,6 +60,8 @@ type mutex struct {
 }
 
 type world struct {
+	holders map[[3]string]bool
+
 	prog    *ssa.Program
 	fset    *token.FileSet
 	repo    string
@@ -519,7 +521,18 @@ func (s *state) join(o *state) bool {
 	return ch
 }
 
+// per function: "holder acquires (directly or through what it calls) `to` while it holds `from`"
+func (w *world) noteHolder(from int, to *mutex, holder *ssa.Function) {
+	if w.holders == nil {
+		w.holders = map[[3]string]bool{}
+	}
+	if w.mutexes[from].Piko && to.Piko && holder != nil {
+		w.holders[[3]string{w.short(holder.String()), w.mutexes[from].Name, to.Name}] = true
+	}
+}
+
 func (w *world) addEdge(from int, hi heldInfo, to *mutex, holder *ssa.Function, site token.Pos, kind string, path []string) {
+	w.noteHolder(from, to, holder)
 	key := [2]int{from, to.ID}
 	if _, ok := w.edges[key]; ok {
 		return
@@ -582,6 +595,7 @@ func (w *world) analyse(fi *funcInfo) bool {
 					}
 					var path []string
 					for h, hi := range st.held {
+						w.noteHolder(h, to, fn)
 						if old, dup := w.edges[[2]int{h, mid}]; dup && !(strings.Contains(old.Kind, "go") && !strings.Contains(k, "go")) {
 							continue
 						}
@@ -777,6 +791,7 @@ type report struct {
 	Edges       []edgeOut         `json:"edges"`
 	Diagnostics diagnostics       `json:"diagnostics"`
 	LockSites   map[string]string `json:"lock_sites"` // piko lock/unlock call sites -> mutex (for the dynamic validation)
+	Holders     [][3]string       `json:"holders"`    // (function, held mutex, mutex acquired while it is held)
 }
 
 func coqString(s string) string { return "\"" + strings.ReplaceAll(s, "\"", "\"\"") + "\"" }
@@ -945,6 +960,30 @@ func main() {
 				sb.WriteString(";\n   ")
 			}
 			sb.WriteString(" (" + coqString(e.From) + ", " + coqString(e.To) + ")")
+		}
+		sb.WriteString(" ].\n\n")
+		// (function, held mutex, acquired mutex): the function acquires the second mutex - itself or through a call - at a
+		// point where it holds the first. "(^T).M" stands for the method M of *T.
+		var hs [][3]string
+		for h := range w.holders {
+			hs = append(hs, h)
+		}
+		sort.Slice(hs, func(i, j int) bool {
+			for k := 0; k < 3; k++ {
+				if hs[i][k] != hs[j][k] {
+					return hs[i][k] < hs[j][k]
+				}
+			}
+			return false
+		})
+		rep.Holders = hs
+		sb.WriteString("Definition lock_holders : list (string * string * string) :=\n  [")
+		for i, h := range hs {
+			if i > 0 {
+				sb.WriteString(";\n   ")
+			}
+			fn := strings.ReplaceAll(strings.ReplaceAll(h[0], "(*", "(^"), "*)", "^)")
+			sb.WriteString(" (" + coqString(fn) + ", " + coqString(h[1]) + ", " + coqString(h[2]) + ")")
 		}
 		sb.WriteString(" ].\n\n")
 		for _, e := range rep.Edges {
